@@ -24,6 +24,14 @@ func encodeSamples(rng *rand.Rand, n int) [][]byte {
 			a.Activity = fit.NewActivityMsg()
 			a.Activity.Timestamp = time.Unix(1500000000+int64(rng.Intn(1e6)), 0).UTC()
 			a.Activity.NumSessions = uint16(rng.Intn(5))
+			if i%2 == 0 {
+				// array fields (their base type byte is part of what a burst may hit)
+				sm := fit.NewSessionMsg()
+				sm.Timestamp = time.Unix(1500000000, 0).UTC()
+				sm.TimeInHrZone = []uint32{uint32(rng.Intn(100000)), uint32(rng.Intn(100000)), 7}
+				sm.TimeInPowerZone = []uint32{1, 2}
+				a.Sessions = append(a.Sessions, sm)
+			}
 			for k := rng.Intn(5); k >= 0; k-- {
 				r := fit.NewRecordMsg()
 				r.Timestamp = time.Unix(1500000000+int64(k), 0).UTC()
